@@ -155,36 +155,44 @@ def parseCells (sep : UInt8) : PState → Bytes → Bytes → List Bytes
 
 def parseRow (sep : UInt8) (line : Bytes) : List Bytes := parseCells sep .base line []
 
-/-- `myisnumber(s, dec)` (ccdee89): `[-]digits[dec digits][(e|E)[+|-]digits]`, at least one mantissa digit -/
-def isNumber (dec : UInt8) (s : Bytes) : Bool :=
-  let s1 := match s with
-    | 45 :: t => t
-    | _ => s
-  let d1 := s1.takeWhile isDigit
-  let s2 := s1.dropWhile isDigit
-  let (d2, s3) := match s2 with
-    | c :: t => if c = dec then (t.takeWhile isDigit, t.dropWhile isDigit) else ([], s2)
-    | [] => ([], s2)
-  if d1.length + d2.length = 0 then false else
-  match s3 with
+/-- `if (p[i] == '+' || p[i] == '-') i++;` -/
+def skipSign : Bytes → Bytes
+  | 43 :: u => u
+  | 45 :: u => u
+  | t => t
+
+/-- `if (p[i] == '-') i++;` -/
+def skipMinus : Bytes → Bytes
+  | 45 :: t => t
+  | s => s
+
+/-- the end of `myisnumber`: optional `(e|E)[+|-]digits`, then `return i == s.length()` -/
+def isNumberExp : Bytes → Bool
   | [] => true
   | c :: t =>
-    if c = 101 || c = 69 then
-      let t1 := match t with
-        | 43 :: u => u
-        | 45 :: u => u
-        | _ => t
-      !(t1.isEmpty) && t1.all isDigit
+    if c = 101 || c = 69 then !((skipSign t).isEmpty) && (skipSign t).all isDigit
     else false
 
-/-- `myatoiz`: sign, then *every* remaining byte as a digit -/
-def atoiz (s : Bytes) : Int :=
-  let (neg, t) := match s with
-    | 45 :: t => (true, t)
-    | 43 :: t => (false, t)
-    | _ => (false, s)
-  let y : Int := t.foldl (fun y c => 10 * y + ((c.toNat : Int) - 48)) 0
-  if neg then -y else y
+/-- `myisnumber(s, dec)` (ccdee89): `[-]digits[dec digits][(e|E)[+|-]digits]`, at least one mantissa digit -/
+def isNumber (dec : UInt8) (s : Bytes) : Bool :=
+  let s1 := skipMinus s
+  let d1 := s1.takeWhile isDigit
+  match s1.dropWhile isDigit with
+  | [] => !(d1.length = 0)
+  | c :: t =>
+    if c = dec then
+      if d1.length + (t.takeWhile isDigit).length = 0 then false else isNumberExp (t.dropWhile isDigit)
+    else
+      if d1.length = 0 then false else isNumberExp (c :: t)
+
+/-- the digit loop of `myatoiz`: *every* remaining byte is taken as a digit -/
+def atoizDigits (t : Bytes) : Int := t.foldl (fun y c => 10 * y + ((c.toNat : Int) - 48)) 0
+
+/-- `myatoiz`: optional sign, then the digit loop -/
+def atoiz : Bytes → Int
+  | 45 :: t => -(atoizDigits t)
+  | 43 :: t => atoizDigits t
+  | s => atoizDigits s
 
 def isE (c : UInt8) : Bool := c == 101 || c == 69
 
@@ -195,35 +203,37 @@ structure Dec where
   exp : Int
 deriving Repr, DecidableEq
 
-/-- the scan `while (*p++) if (*p == 'e' || *p == 'E') {…}` started with `p` at the head of the
-    argument: looks at the bytes *after* the first one -/
+/-- `if (*(p + 1) == '+') p++; exp += myatoiz(p + 1);` with `u` the bytes after the exponent mark -/
+def expAfterE : Bytes → Int
+  | 43 :: v => atoiz v
+  | u => atoiz u
+
+/-- the scan `while (*p++) if (*p == 'e' || *p == 'E') {…; break;}` started with `p` at the head of the
+    argument: it looks at the bytes *after* the first one -/
 def expScan : Bytes → Int
   | [] => 0
-  | _ :: t =>
-    match t with
-    | [] => 0
-    | c :: u =>
-      if isE c then (match u with
-        | 43 :: v => atoiz v
-        | _ => atoiz u)
-      else expScan t
+  | [_] => 0
+  | _ :: c :: u => if isE c then expAfterE u else expScan (c :: u)
+
+/-- the decimal exponent `myatof` computes for the unsigned text `s`: minus the number of bytes between
+    the first `.` and the exponent mark, plus the exponent found by the scan -/
+def atofExp (s : Bytes) : Int :=
+  match idxOf 46 s with
+  | some i =>
+    let frac := (s.drop (i + 1)).takeWhile (fun c => !isE c)
+    -- `p` ends on the last fraction byte (or on the `.`)
+    expScan (s.drop (i + frac.length)) - (frac.length : Int)
+  | none => expScan s
+
+/-- `y1`: every byte up to the exponent mark except `.` taken as a digit -/
+def atofMant (s : Bytes) : Int :=
+  (s.takeWhile (fun c => !isE c)).foldl (fun y c => if c = 46 then y else 10 * y + ((c.toNat : Int) - 48)) 0
 
 /-- `myatof(s)` -/
 def atofDec (s0 : Bytes) : Dec :=
   let neg := charAt s0 0 == 45
   let s := if neg then s0.drop 1 else s0
-  -- fraction digits: after the first '.', up to NUL/e/E
-  let fracExp : Int × Bytes :=
-    match idxOf 46 s with
-    | some i =>
-      let frac := (s.drop (i + 1)).takeWhile (fun c => !isE c)
-      -- p ends on the last fraction byte (or on the '.')
-      (-(frac.length : Int), s.drop (i + frac.length))
-    | none => (0, s)
-  let e := fracExp.1 + expScan fracExp.2
-  let y1 : Int := (s.takeWhile (fun c => !isE c)).foldl
-      (fun y c => if c = 46 then y else 10 * y + ((c.toNat : Int) - 48)) 0
-  { neg := neg, mant := y1, exp := e }
+  { neg := neg, mant := atofMant s, exp := atofExp s }
 
 /-- a cell as returned by `data()` -/
 inductive RCell where
